@@ -176,7 +176,8 @@ def conc_namespace(ex, inputs, outputs, result):
     if result is not None:
         cur["result"] = result if isinstance(result, int) else Fraction(float(result))
     cur["defined"] = lambda a, i: True
-    cur["length"] = lambda a: a.length
+    cur.setdefault("length", lambda a: a.length)
+    cur["len_"] = lambda a: a.length
     cur["alive"] = lambda a: True
     cur["isdef"] = lambda n: True
     for g in ex.c.ghosts:
